@@ -80,6 +80,7 @@ class TimedHarness:
         obs = {"appends": [(x[0], x[1], x[3], x[4]) for x in ops if x[3] in ("append", "appendleft")],
                "dispatched": H.dispatch_log(s, "ao"),
                "tracked": [(pe.signal_name, str(pe.uuid)) for pe in ao.posted_events_queue],
+               "running": {str(pe.uuid): bool(pe.task_run_event._flag) for pe in ao.posted_events_queue},
                "ids": [None if i is None else str(i) for i in ids],
                "raised": raised, "notes": [(x[0], x[1]) + tuple(x[3:]) for x in s.log if x[3] in ("cancel-returned", "source-rejected")],
                "thread_exceptions": [x[:3] for x in s.thread_exceptions], "end_time": s.now}
@@ -108,9 +109,11 @@ def schedule_violations(pid, p, o, cancelled=(), rejected=()):
             # never closer together than the period, and the count still has to be right
             ok = len(got) <= len(want) and all(g >= w - 1e-9 for g, w in zip(got, want)) and \
                 all(b - a >= src["period"] - 1e-9 for a, b in zip(got, got[1:]))
-            if src["times"] != 0:
-                ok = ok and (len(got) == len(want) or (len(got) < len(want) and got and got[-1] + src["period"] > H_ - 1e-9)
-                             or (not got and want and want[0] <= H_))
+            if src["times"] != 0 and len(got) < len(want):
+                # fewer posts than the latency-free schedule: fine as long as the source is still at it (its run flag is
+                # set: the rest comes later than the horizon), a violation if it gave up
+                sid = o["ids"][i] if i < len(o.get("ids", [])) else None
+                ok = ok and bool(o.get("running", {}).get(sid))
             if not ok:
                 out.append(("%s/schedule-with-latency/times=%s/deferred=%s" % (pid, src["times"] if src["times"] in (0, 1) else "n", src["deferred"]),
                             "source %d (period %s, times %s, deferred %s) posted at %r; without latency %r" % (
